@@ -96,6 +96,8 @@ class Output(BaseOutput):
 
         # Records are written at steps 0, p, 2p, ... < Nsteps (p = output_period_step)
         self.num_records = int(-(-timer.Nsteps // self.output_period_step))
+        if skip_initial:  # Warm start, the record at step 0 is in the restart file
+            self.num_records -= 1
         # if not skip_initial:  # Add an initial record
         #     self.num_records += 1
         logger.info("  Number of records: %s", self.num_records)
